@@ -173,7 +173,7 @@ def strategy(tier):
             s["outcomes"] = oc
         return s
 
-    return st.builds(add, base, st.integers(1, 14), st.sampled_from(["cancel", "cancel", "cancel2"]), st.sampled_from([0, 0, 0, 1, 2, 3]))
+    return st.builds(add, base, st.integers(1, 14), st.sampled_from(["cancel", "cancel", "cancel2", "pause+cancel", "pause2+cancel", "pause+resume+cancel", "pause+resume+cancel2"]), st.sampled_from([0, 0, 0, 1, 2, 3]))
 
 
 PARTS = [Part("cancel", run, strategy, {"quick": 2400, "thorough": 60000}, rule=RULE)]
